@@ -144,12 +144,15 @@ def field_index(proj):
 
 
 class Flow:
-    def __init__(self, facts, body, extra_transparent=None, call_hook=None):
+    def __init__(self, facts, body, extra_transparent=None, call_hook=None, live_blocks=None):
         self.facts = facts
         self.body = body
         self.extra = extra_transparent or {}
         # call_hook(flow, bb, term, name) -> list of transparent arg indices | "opaque" | None (default rules)
         self.call_hook = call_hook
+        # live_blocks: when given (e.g. the blocks executable under one Operation variant), definitions located in
+        # other blocks are ignored -- makes the value-flow variant-sensitive
+        self.live = live_blocks
         self.deep_aggregates = False  # when True, a struct aggregate read as a whole also yields its operands' origins
         self.keep_arrays = False  # when True, array aggregates also yield an ("agg", bb, j, "array") origin
         self._build_defs()
@@ -357,6 +360,8 @@ class Flow:
             if bb < 0:
                 out.add(self._param_origin(l, projs))
                 continue
+            if self.live is not None and bb not in self.live:
+                continue
             if j is None:
                 out |= self._call_origins(bb, projs, stack)
             else:
@@ -367,13 +372,19 @@ class Flow:
             pass
         # weak updates: field writes, writes through pointers, container stores
         for (bb, j, place, rv) in self.partial.get(local, ()):  # field writes `l.f = rv`
+            if self.live is not None and bb not in self.live:
+                continue
             wprojs = tuple(q for q in place[1:] if q != "*")
             if self._proj_compatible(wprojs, projs):
                 rest = projs[len(wprojs):] if len(projs) >= len(wprojs) else ()
                 out |= self._rvalue_origins(rv, rest, (bb, j), stack)
         for (bb, j, place, rv) in self.ptr_writes.get(local, ()):  # `(*p).. = rv` with p rooted here
+            if self.live is not None and bb not in self.live:
+                continue
             out |= self._rvalue_origins(rv, projs, (bb, j), stack)
         for (bb, ops) in self.stores.get(local, ()):  # push/insert/extend
+            if self.live is not None and bb not in self.live:
+                continue
             for o in ops:
                 out |= self._operand_origins(o, projs, (bb, None), stack)
         res = frozenset(out)
